@@ -8,7 +8,7 @@ and the bytes of the source and of its transitive include closure.  An edited
 source or header is recompiled, an untouched one reused.
 
 Usage: vbuild.py <variant> [--print]
-Variants: plain asan tsan fips fips-tsan fips-asan
+Variants: plain asan tsan fips fips-tsan fips-asan noparam
 Output : /verif/.build/<variant>/isa-l_crypto.a , objs.json (name, src, kind, key)
 """
 import sys, os, re, json, hashlib, shlex, subprocess, fcntl, shutil, time
@@ -32,6 +32,8 @@ VARIANTS = {
     "fips": dict(fips=True, san=None),
     "fips-tsan": dict(fips=True, san="tsan"),
     "fips-asan": dict(fips=True, san="asan"),
+    # default SAFE_DATA with the parameter checks compiled out (make SAFE_PARAM=n): the two options are independent in make.inc
+    "noparam": dict(fips=False, san=None, make=["SAFE_PARAM=n"]),
 }
 
 _INC = re.compile(rb'^[ \t]*[%#][ \t]*include[ \t]+["<]([^">]+)[">]', re.M)
@@ -86,12 +88,13 @@ def closure(src, incdirs):
     return sorted(order)
 
 
-def parse_make(fips):
+def parse_make(fips, extra=()):
     O = "/__VBUILD_O__"
     cmd = ["make", "-n", "-f", "Makefile.unx", "-C", REPO, "O=" + O,
            "lib_name=" + O + "/isa-l_crypto.a", "D=" + GUARD]
     if fips:
         cmd.append("FIPS_MODE=y")
+    cmd += list(extra)
     cmd.append("lib")
     r = subprocess.run(cmd, capture_output=True, text=True)
     if r.returncode != 0:
@@ -198,7 +201,7 @@ def build(variant, quiet=False):
     lock = open(os.path.join(VERIF, ".cache", "lock"), "w")
     fcntl.flock(lock, fcntl.LOCK_EX)
     try:
-        objs = parse_make(v["fips"])
+        objs = parse_make(v["fips"], v.get("make", ()))
         for o in objs:
             o["eargs"], o["key"] = effective(o, v["san"])
         # longest (largest closure) first: the vaes gcm files dominate
